@@ -14,14 +14,19 @@ use vcore::exec::{self, Job};
 use vcore::run::{Run, guarded, machinery_failure, quick_hash};
 
 struct Program {
-  name: &'static str,
-  modules: Vec<(&'static str, &'static str)>,
-  entry: &'static str,
+  name: String,
+  modules: Vec<(String, String)>,
+  entry: String,
 }
 
 fn programs() -> Vec<Program> {
-  vec![
-    Program {
+  struct P {
+    name: &'static str,
+    modules: Vec<(&'static str, &'static str)>,
+    entry: &'static str,
+  }
+  let v = vec![
+    P {
       name: "accepted: enums across modules, generics, closures, strings",
       entry: "Main",
       modules: vec![
@@ -31,7 +36,7 @@ fn programs() -> Vec<Program> {
         ("Main", "import { A, B, W } from Shapes\nimport { Opt, Counter } from Lib\nimport { Util } from Util\nclass Main {\n  function main(): unit = {\n    Process.println(A.AX(B.BQ(A.AY())).show());\n    Process.println(W.init(Opt.Some(A.AX(B.BP()))).get().show());\n    Process.println(W.init(Opt.None<A>()).get().show());\n    Process.println(Util.describe(Opt.Some(21)));\n    Process.println(Util.describe(Opt.None<int>()));\n    Process.println(Str.fromInt(Util.twice((x) -> x + Util.count(), 1)));\n    Process.println(Counter.label())\n  }\n}\n"),
       ],
     },
-    Program {
+    P {
       name: "rejected: errors in three modules, two at the same location class",
       entry: "Main",
       modules: vec![
@@ -40,7 +45,7 @@ fn programs() -> Vec<Program> {
         ("Main", "import { M } from Mid\nimport { Nope } from Nowhere\nclass Main { function main(): unit = { let x: Str = M.h(); let y: int = M.nothing(); } }\n"),
       ],
     },
-    Program {
+    P {
       name: "accepted: same class names in different modules, mutual imports",
       entry: "Main",
       modules: vec![
@@ -49,7 +54,7 @@ fn programs() -> Vec<Program> {
         ("Main", "import { Box, Tag } from P\nimport { Item } from Q\nclass Main { function main(): unit = {\n  Process.println(Box.init(Item.init(Tag.T2(7))).show());\n  Process.println(Box.init(Item.init(Tag.T1())).show())\n} }\n"),
       ],
     },
-    Program {
+    P {
       name: "accepted: recursive type knot reached from two modules' Main.main (layout decisions depend on specialisation order)",
       entry: "A",
       modules: vec![
@@ -58,7 +63,14 @@ fn programs() -> Vec<Program> {
         ("B", "import { Opt, Node } from Shared\nclass Main {\n  function main(): unit = {\n    let o: Opt<Node> = Opt.None();\n    let _ = o;\n  }\n}\n"),
       ],
     },
-  ]
+  ];
+  v.into_iter()
+    .map(|p| Program {
+      name: p.name.to_string(),
+      modules: p.modules.into_iter().map(|(a, b)| (a.to_string(), b.to_string())).collect(),
+      entry: p.entry.to_string(),
+    })
+    .collect()
 }
 
 fn permutations(n: usize) -> Vec<Vec<usize>> {
@@ -104,7 +116,7 @@ fn compile_once(p: &Program, alloc_order: &[usize], iter_order: Option<&[usize]>
   let mut heap = Heap::new();
   let mut refs: Vec<Option<ModuleReference>> = vec![None; p.modules.len()];
   for i in alloc_order {
-    refs[*i] = Some(exec::module_ref(&mut heap, p.modules[*i].0));
+    refs[*i] = Some(exec::module_ref(&mut heap, &p.modules[*i].0));
   }
   let refs: Vec<ModuleReference> = refs.into_iter().map(|r| r.unwrap()).collect();
   let std_sources = samlang_parser::builtin_std_raw_sources(&mut heap);
@@ -308,6 +320,67 @@ fn main() {
     }
   }
 
+  // ---------------- 4. generated three-module type shapes: all 6 x 6 orders, one worker ----------------
+  {
+    let genp: Vec<Program> = vcore::progfam::type_shape_three_modules(thorough)
+      .into_iter()
+      .map(|(name, modules)| Program { name, modules, entry: "Main".to_string() })
+      .collect();
+    let perms = permutations(3);
+    let mut jobs: Vec<(usize, &Vec<usize>, &Vec<usize>)> = vec![];
+    for pi in 0..genp.len() {
+      for a in &perms {
+        for it in &perms {
+          jobs.push((pi, a, it));
+        }
+      }
+    }
+    let results: Vec<Result<Full, String>> =
+      jobs.par_iter().map(|(pi, a, it)| compile_once(&genp[*pi], a, Some(it.as_slice()), 1)).collect();
+    // distinct artefacts per program
+    let mut per_prog: Vec<BTreeMap<(u64, u64), exec::Emitted>> = vec![BTreeMap::new(); genp.len()];
+    for ((pi, a, it), r) in jobs.iter().zip(results) {
+      evaluated.fetch_add(1, Ordering::Relaxed);
+      distinct_configs.lock().unwrap().insert(format!("{}|{a:?}|{it:?}|1", genp[*pi].name));
+      let cfg = json!({"program": genp[*pi].name, "allocation_order": a, "iteration_order": it, "workers": 1});
+      match r {
+        Err(e) if e.contains("not reached") => machinery_failure(&e),
+        Err(e) => run.violation(&format!("panic:{}", e.chars().take(100).collect::<String>()), &format!("{e} [{cfg}]"), cfg),
+        Ok(f) => {
+          if !f.r.accepted {
+            machinery_failure(&format!("generated program `{}` is rejected: {}", genp[*pi].name, f.r.diagnostics.chars().take(300).collect::<String>()));
+          }
+          if let Some(e) = f.emitted {
+            per_prog[*pi].entry((f.r.wasm_hash, f.r.ts_hash)).or_insert(e);
+          }
+        }
+      }
+    }
+    let mut node_jobs = vec![];
+    let mut owners = vec![];
+    for (pi, m) in per_prog.iter().enumerate() {
+      for e in m.values() {
+        node_jobs.push(Job::Wasm { wasm: e.wasm.clone(), loader_js: e.loader_js.clone(), entry: e.wasm_entry.clone() });
+        node_jobs.push(Job::Ts { text: e.ts.clone() });
+        owners.push(pi);
+      }
+    }
+    node_runs.fetch_add(node_jobs.len() as u64, Ordering::Relaxed);
+    let rs = exec::run_parallel("c12gen", &node_jobs, Duration::from_secs(60), 16).unwrap_or_else(|e| machinery_failure(&e));
+    let mut first: HashMap<usize, usize> = HashMap::new();
+    for (k, pi) in owners.iter().enumerate() {
+      let f = *first.entry(*pi).or_insert(k);
+      if rs[2 * k] != rs[2 * f] || rs[2 * k + 1] != rs[2 * f + 1] {
+        run.violation(
+          "behaviour-differs:generated",
+          &format!("emitted programs for `{}` behave differently depending on the module enumeration order", genp[*pi].name),
+          json!({"program": genp[*pi].name, "modules": genp[*pi].modules, "reference_wasm": rs[2 * f].lines, "got_wasm": rs[2 * k].lines, "reference_ts": rs[2 * f + 1].lines, "got_ts": rs[2 * k + 1].lines}),
+        );
+      }
+    }
+    space.insert("generated three-module type shapes".into(), json!({"programs": genp.len(), "order_pairs_each": 36, "distinct_artefacts_run": owners.len()}));
+  }
+
   // ---------------- residual: fresh internal hash seeds (sampled, labelled) ----------------
   let k = if thorough { 64 } else { 8 };
   let mut sampled = 0u64;
@@ -340,7 +413,7 @@ fn main() {
       "distinct_nontrivial": n,
       "rule": "exhaustive: all n! allocation orders x all n! hash-map iteration orders of the program's modules (worker counts 1 and 16), all worker counts 1..16 (quick: 1,2,3,16) on two order pairs, and every loom interleaving of the shared temp-name counter; oracle: same verdict, byte-equal diagnostics for the same allocation order (same multiset otherwise), same behaviour of every distinct emitted Wasm/TS artefact; distinct = distinct (program, allocation order, iteration order, workers) configurations",
       "samples": [
-        {"program": progs[0].name, "modules": progs[0].modules.iter().map(|m| m.0).collect::<Vec<_>>()},
+        {"program": progs[0].name, "modules": progs[0].modules.iter().map(|m| m.0.clone()).collect::<Vec<_>>()},
         {"program": progs[1].name, "modules": progs[1].modules.iter().map(|m| json!({"name": m.0, "text": m.1})).collect::<Vec<_>>()},
       ],
       "space": space,
